@@ -1096,6 +1096,8 @@ package formula
 //@   panics never
 //@   ensures result1 == nil && wfv(result0)
 //@   ensures[C04] num(v1) && num(v2) ==> num(result0) && fresh(nref(result0)) && nref(result0).prec == 34 && nval(result0) == drem(nval(v1), nval(v2), 34)
+//@   ensures[C04] num(v1) && num(v2) && dfinite(nval(v1)) && dfinite(nval(v2)) && dcmp(nval(v2), dzero()) != 0 && dqdigits(nval(v1), nval(v2)) <= 34 ==> nval(result0) == dremx(nval(v1), nval(v2))
+//@   ensures[C04] num(v1) && num(v2) && dfinite(nval(v1)) && dfinite(nval(v2)) && dcmp(nval(v2), dzero()) != 0 && dqdigits(nval(v1), nval(v2)) > 34 ==> nval(result0) == dremx(nval(v1), nval(v2))
 
 // Selection operators (C06) hand back one of their operands unchanged.
 //@ func (*Runner).resolveAmpersandAmpersandBinaryExpression
